@@ -26,6 +26,8 @@ var (
 )
 
 var theInt = 5
+var staleInt = 98
+var errStale = errors.New("stale")
 
 // argument values by kind
 func argValue(kind string) interface{} {
@@ -87,6 +89,9 @@ func resultValue(typ string, nilres bool) reflect.Value {
 	case "string":
 		return reflect.ValueOf("r")
 	case "pint":
+		if nilres {
+			return reflect.Zero(tPInt) // a typed nil pointer
+		}
 		return reflect.ValueOf(&theInt)
 	case "any":
 		if nilres {
@@ -169,7 +174,8 @@ func cmdCallable(args map[string]string) {
 	}
 	// universe B: results
 	rtypes := []string{"int", "string", "pint", "any", "err"}
-	tkinds := []string{"ok", "okany", "wrong", "nilptr", "nonptr", "unil"}
+	// ("okpre" / "okanypre": valid targets that already hold a value - a caller re-using its variables)
+	tkinds := []string{"ok", "okany", "okpre", "okanypre", "wrong", "nilptr", "nonptr", "unil"}
 	maxT := 2
 	if thorough {
 		maxT = 3
@@ -180,7 +186,8 @@ func cmdCallable(args map[string]string) {
 				evs = append(evs, caseResults(results, nilres, tk))
 				st.Executions++
 			}
-			for _, sk := range []string{"sany", "sint", "nilp", "nonptr", "notslice", "unil"} {
+			// ("sfloat" *[]float64, "sstring" *[]string: element types some results convert to but are not assignable to)
+			for _, sk := range []string{"sany", "sint", "sfloat", "sstring", "nilp", "nonptr", "notslice", "unil"} {
 				evs = append(evs, caseResultsSlice(results, nilres, sk))
 				st.Executions++
 			}
@@ -274,6 +281,40 @@ func makeTarget(kind, typ string) (target interface{}, state func(expected refle
 	case "okany":
 		p := reflect.New(tAny)
 		return p.Interface(), func(exp reflect.Value) string { return cmpStored(p.Elem(), exp, "any") }
+	case "okpre", "okanypre":
+		t := typ
+		if kind == "okanypre" {
+			t = "any"
+		}
+		p := reflect.New(typeOf[t])
+		var pre reflect.Value
+		switch t {
+		case "int":
+			pre = reflect.ValueOf(99)
+		case "string":
+			pre = reflect.ValueOf("stale")
+		case "pint":
+			pre = reflect.ValueOf(&staleInt)
+		case "any":
+			pre = reflect.ValueOf("stale")
+		case "err":
+			pre = reflect.ValueOf(errStale)
+		}
+		p.Elem().Set(pre)
+		return p.Interface(), func(exp reflect.Value) string {
+			v := p.Elem()
+			// still the value it held before the call?
+			if t == "pint" && !v.IsNil() && v.Interface().(*int) == &staleInt {
+				return "stale"
+			}
+			if t != "pint" && !v.IsZero() && reflect.DeepEqual(v.Interface(), pre.Interface()) {
+				return "stale"
+			}
+			if r := cmpStored(v, exp, t); r == "set" || r == "zero" {
+				return "set"
+			}
+			return "bad"
+		}
 	case "wrong":
 		wt := tInt
 		if typ == "int" {
@@ -358,6 +399,14 @@ func caseResultsSlice(results []string, nilres bool, sk string) rec.Ev {
 		appended = func() int { return len(s) - 1 }
 	case "sint":
 		s := []int{9}
+		target = &s
+		appended = func() int { return len(s) - 1 }
+	case "sfloat":
+		s := []float64{9}
+		target = &s
+		appended = func() int { return len(s) - 1 }
+	case "sstring":
+		s := []string{"x"}
 		target = &s
 		appended = func() int { return len(s) - 1 }
 	case "nilp":
